@@ -208,6 +208,9 @@ GEN_CONFIGS = {
     'sm-full': (['state_machine_codegen'], 'full'),
     'tail-forbid-full': (['forbid_unsafe'], 'full'),
     'sm-forbid-full': (['state_machine_codegen', 'forbid_unsafe'], 'full'),
+    # thorough tier, small scope: the bounded-exhaustive family of corpus/gen_enum.py and nothing else
+    'tail-enum': ([], 'enum'),
+    'sm-enum': (['state_machine_codegen'], 'enum'),
 }
 
 
@@ -251,6 +254,10 @@ def gen_facts(treehash, config):
             with open(os.path.join(corpus, 'Cargo.toml'), 'w') as f:
                 f.write(toml.replace('path = "/repo"', 'path = "%s"' % REPO))
             shutil.copy(os.path.join(REPO, 'Cargo.lock'), os.path.join(corpus, 'Cargo.lock'))
+            if which == 'enum':
+                subprocess.run([sys.executable, os.path.join(corpus, 'gen_enum.py'), os.path.join(corpus, 'src', 'enum_defs.rs')], check=True, stderr=subprocess.DEVNULL)
+                with open(os.path.join(corpus, 'src', 'lib.rs'), 'w') as f:
+                    f.write('#![allow(dead_code, unused)]\npub mod enum_defs;\n')
             if full:
                 # thorough tier: a module of pseudo-random definitions (seeded by VERIF_SEED) widens the set of generated programs
                 subprocess.run([sys.executable, os.path.join(corpus, 'gen_random.py'), str(seed), '100', os.path.join(corpus, 'src', 'random_defs.rs')], check=True)
@@ -265,6 +272,8 @@ def gen_facts(treehash, config):
                 plain = [x for x in feats if x != 'debug']
                 jobs.append(('nodebug-corpus', corpus, ['cargo', '+nightly', 'rustc', '--lib', '--offline'] + (['--features', ','.join(plain)] if plain else [])))
             tests = repo_test_targets()
+            if which == 'enum':
+                tests = []
             if which == 'quick':
                 tests = [t for t in tests if t in QUICK_TESTS]
             tfeat = ['--features', ','.join(feats)] if feats else []
